@@ -83,9 +83,17 @@ def loc_ops(rng, nops, base=None, rules=True, clear_prob=0.0):
         # or a reloading cache setting brings it back
         d = rng.choice(base)
         at = rng.randint(0, max(0, len(ops) // 4))
-        if rng.random() < 0.5:
+        k = rng.random()
+        if k < 0.4:
             seq = [{"op": "addFact", "id": "dx", "fact": dict(d)}, {"op": "addFact", "id": "dy", "fact": dict(d, deleteWith=["dx"])},
                    {"op": "remFact", "id": "dx"}, {"op": "getFact", "id": "dy"}, {"op": "size"}]
+        elif k < 0.7:
+            # a rule that was evaluated (a cached instance keeps the parsed rule) is overwritten under its id by a rule with
+            # another action and evaluated again: an instance that lives on must run the new rule, like a freshly loaded one
+            r1 = {"when": {"pattern": {"ow": "?x"}}, "action": {"code": "(1)", "verif_tmpl": {"t": "lit", "v": 1}}}
+            r2 = {"when": {"pattern": {"ow": "?x"}}, "action": {"code": "(2)", "verif_tmpl": {"t": "lit", "v": 2}}}
+            seq = [{"op": "addRule", "id": "ow", "rule": r1}, {"op": "event", "event": {"ow": 1}}, {"op": "addRule", "id": "ow", "rule": r2},
+                   {"op": "event", "event": {"ow": 1}}]
         else:
             rule = rule_for(rng, d, idxok=True)
             rule["when"]["pattern"] = uniq_vars(rule["when"]["pattern"])
@@ -208,7 +216,7 @@ def proto_case(rng, ttl, state, check=False):
             h = rng.choice(sorted(open_h))
             steps.append({"t": "release", "h": h, "loc": open_h.pop(h)})
         elif r < 0.95:
-            op = small_op(rng)
+            op = req_op(rng)
             if check and rng.random() < 0.3:
                 op = {k: v for k, v in marker_op(rng, "").items() if k != "loc"}
             steps.append({"t": "req", "loc": rng.choice(names), "op": op})
@@ -237,7 +245,7 @@ def overlap_case(rng, ttl, state):
     first = held.pop(0)
     steps.append({"t": "release", "h": first, "loc": n})
     srch = {"op": "search", "pattern": {"a": "?v"}, "inherited": False}
-    steps.append({"t": "req", "loc": n, "op": rng.choice([srch, small_op(rng)])})
+    steps.append({"t": "req", "loc": n, "op": rng.choice([srch, small_op(rng), look_op(rng)])})
     fid = 0
     while held:
         r = rng.random()
@@ -245,7 +253,7 @@ def overlap_case(rng, ttl, state):
             fid += 1
             steps.append({"t": "op", "h": rng.choice(held), "op": {"op": "addFact", "id": "w%d" % fid, "fact": {"a": 7 + fid}}})
         elif r < 0.60:
-            steps.append({"t": "req", "loc": n, "op": dict(srch)})
+            steps.append({"t": "req", "loc": n, "op": dict(srch) if rng.random() < 0.7 else look_op(rng)})
         elif r < 0.70:
             h = "g%d" % fid; fid += 1
             steps.append({"t": "open", "h": h, "loc": n, "check": False}); held.append(h)
@@ -253,6 +261,15 @@ def overlap_case(rng, ttl, state):
             steps.append({"t": "release", "h": held.pop(rng.randrange(len(held))), "loc": n})
     steps.append({"t": "req", "loc": n, "op": dict(srch)})
     return {"kind": "c17.proto", "ttl": ttl, "state": state, "check": False, "steps": steps}
+
+
+def look_op(rng):
+    """requests that only look at the Location object the cache hands out: one Open, no state access, one Release"""
+    return {"op": rng.choice(["lastUpdated", "lastUpdated", "locStats", "clearLocStats"])}
+
+
+def req_op(rng):
+    return look_op(rng) if rng.random() < 0.15 else small_op(rng)
 
 
 def small_op(rng):
